@@ -187,13 +187,26 @@ def run_scenario(res: Result, seed: int, sc: Optional[Dict[str, Any]] = None) ->
             out["B"] = B
             out["mark"] = len(sim.net.trace)
             horizon = 0.0
+            start_at = 0.0
+            if sc.get("prestart"):
+                # the browser is started late: a pointer learned earlier sits in the cache and reaches its 75 % instant during or
+                # shortly after the four start-up queries.  (Pointers owned by a *subtype* name that arrive before the browser
+                # exists are never handed to it - the replay at start-up goes by the browsed name - so they are left out.)
+                first = [ev for ev in sc["events"] if ev["ttl"] != 0 and ev["what"] != "learn-subtype"]
+                if first:
+                    due0 = first[0]["t"] + 750.0 * eff_ttl(first[0]["ttl"])
+                    start_at = max(first[0]["t"] + 1.0, due0 - rng.choice([0.0, 3000.0, 9000.0, 13000.0, 14100.0, 20000.0]))
+                    sc["events"] = [ev for ev in sc["events"] if not (ev["what"] == "learn-subtype" and ev["t"] <= start_at + 15000.0)]
             for i, ev in enumerate(sc["events"]):
                 data = R.build_response([(("PTR", ev["type"], (ev["alias"],)), ev["ttl"], False)], id_=1000 + i)
                 sim.net.inject(host, data, ("10.0.0.9", 5353), delay_ms=float(ev["t"]))
                 horizon = max(horizon, ev["t"] + eff_ttl(ev["ttl"]) * 1000.0)
             qt = {None: None, "QU": DNSQuestionType.QU, "QM": DNSQuestionType.QM}[sc["forced"]]
+            if start_at:
+                await sim.sleep_until_ms(B + start_at)
+            out["Bstart"] = sim.now_ms()
             browser = AsyncServiceBrowser(zc, sc["types"] if len(sc["types"]) > 1 else sc["types"][0], listener=L(), delay=sc["delay"], question_type=qt)
-            await sim.sleep_ms(horizon + 2 * sc["delay"] + 30000)
+            await sim.sleep_until_ms(B + horizon + 2 * sc["delay"] + 30000)
             out["end"] = sim.now_ms()
             out["passes"] = list(_PASSES)
             await browser.async_cancel()
@@ -216,16 +229,22 @@ def analyse(res: Result, sim: simnet.Sim, sc: Dict[str, Any], out: Dict[str, Any
     delay = float(sc["delay"])
     # query batches: datagrams sent at the same instant
     batches: List[Tuple[float, Set[str], List[wire.Msg]]] = []
+    seen_keys: Set[Any] = set()
     for e in sim.net.trace[out["mark"]:]:
         m = wire.parse(e["data"], strict=True)
         if m.is_response or not m.questions:
             continue
         names = {q.name.text() for q in m.questions}
-        if batches and abs(batches[-1][0] - e["t"]) < 1e-6:
+        keys = {(e["fd"], e["dst"], q.name.text().lower(), q.type) for q in m.questions}
+        # one query goes out once per socket, in one or more datagrams, each question once per socket: a question seen a second
+        # time on the same socket in the same instant belongs to a second query
+        if batches and abs(batches[-1][0] - e["t"]) < 1e-6 and not (keys & seen_keys):
             batches[-1][1].update(names)
             batches[-1][2].append(m)
+            seen_keys |= keys
         else:
             batches.append((e["t"], set(names), [m]))
+            seen_keys = set(keys)
     epochs = build_epochs(sc["events"], B)
     res.mon("c10.hook_scheduler_passes", len(out.get("passes", [])))
     # ---- 1. start-up
@@ -234,7 +253,7 @@ def analyse(res: Result, sim: simnet.Sim, sc: Dict[str, Any], out: Dict[str, Any
     if len(st) < 4:
         viol("c10.startup", "startup_count", "only %d query batches sent in total" % len(st))
         return
-    d0 = st[0][0] - B
+    d0 = st[0][0] - out.get("Bstart", B)
     if not (20.0 - 1e-6 <= d0 <= 120.0 + 1e-6):
         viol("c10.startup", "first_query_delay", "first query %.3f ms after browser start" % d0)
     for i, want in ((1, 1000.0), (2, 4000.0), (3, 9000.0)):
